@@ -282,7 +282,12 @@ def _loop(rep, ex: Explorer):
     def setup(I):
         s, es = _mk(I, RC2, pmaxsat=Sym(("pmaxsat_solver",), "str"))
         w = I.alloc(HWcnf(hard=[("sym", "H")], soft=[("sym", "S")]))
-        return [s, w], {"ignore": ElemV(("ignore",), "coll", "key"), "deadline": Sym("deadline")}
+        kw = {"ignore": ElemV(("ignore",), "coll", "key"), "deadline": Sym("deadline")}
+        # any further parameter is whatever a caller may pass: the enumeration must be complete for every value of it
+        fi_ = ex.prog.function(qual)
+        for a_ in (fi_.node.args.posonlyargs + fi_.node.args.args)[4:] + fi_.node.args.kwonlyargs:
+            kw[a_.arg] = Sym(("parameter", a_.arg), "bool")
+        return [s, w], kw
 
     paths = ex.run(qual, setup, summaries=summ, key="mcsloop")
     n = 0
